@@ -1144,18 +1144,34 @@ pub fn strategy() -> impl Strategy<Value = CCase> {
     (drv::tk_strategy(), drv::feature_strategy(&[2]), drv::serve_strategy(), body).prop_map(|(kind, offered, policy, body)| CCase { kind, offered, policy, body })
 }
 
-pub fn replay(_e: &str, case: &serde_json::Value) -> Result<(), String> {
+pub fn replay(e: &str, case: &serde_json::Value) -> Result<(), String> {
+    if e == "mount-tag" {
+        return crate::props::c13::replay(e, case);
+    }
     check(&serde_json::from_value(case.clone()).map_err(|e| e.to_string())?, &mut Stats::default())
 }
 
 pub fn run(ctx: &Ctx) -> Report {
-    let (stats, failure) = run_proptest(ctx, "cmd", 201, ctx.n(120_000, 9_000_000), strategy, |c: &CCase, st| check(c, st));
+    // the 9P mount tag equals a tag the device exposed, whenever the device changes it while the
+    // driver is reading length and bytes (update schedules shared with C13)
+    let (mut stats, mut failure) = crate::runner::run_items(ctx, "mount-tag", crate::props::c13::torn_items(crate::props::c13::Drv::P9, ctx.quick()), |it, st| {
+        let r = crate::props::c13::run_item(it, st);
+        if r.is_ok() {
+            st.class("mount_tag_read_under_config_updates");
+        }
+        r
+    });
+    if failure.is_none() {
+        let (st, f) = run_proptest(ctx, "cmd", 201, ctx.n(120_000, 9_000_000), strategy, |c: &CCase, st| check(c, st));
+        stats.merge(st);
+        failure = f;
+    }
     Report {
         stats,
         failure,
         info: PartInfo {
             level: "exploration",
-            rule: "proptest histories of the public operations of VirtIOGpu (resolution, setup_framebuffer, change_resolution, flush, setup_cursor, move_cursor, EDID queries), VirtIOSound (set_params, prepare/start/stop/release, blocking pcm_xfer with generated device lag, pcm_xfer_nb/pcm_xfer_ok with device-chosen completion order, queries, jack_remap), VirtIORng, VirtIORtc and VirtIO9p with arbitrary parameters, injected error/unknown/wrong-success responses at generated positions, arbitrary EDID blobs and sizes, on all transports and device policies. Reference devices decode every chain against independently written specification structures (command code, every parameter at its offset, zero padding), enforce ordering (create->attach->set_scanout, transfer->flush, set_params before transfer), compare returned values with what the device reported (EDID via an independent decoder, compared as multiset plus non-increasing order), check PCM payload concatenation/chunk size/stream tag/outstanding bound, and the ledger reports a DMA region released while still attached as backing. Non-trivial = history with a resolution change after a framebuffer exists, >=3 PCM transfers outstanding, or an error response mid-sequence (GPU/sound); >=2 requests incl. an error (rtc/9p/rng). distinct = (transport, features, op kinds/outcomes).",
+            rule: "proptest histories of the public operations of VirtIOGpu (resolution, setup_framebuffer, change_resolution, flush, setup_cursor, move_cursor, EDID queries), VirtIOSound (set_params, prepare/start/stop/release, blocking pcm_xfer with generated device lag, pcm_xfer_nb/pcm_xfer_ok with device-chosen completion order, queries, jack_remap), VirtIORng, VirtIORtc and VirtIO9p with arbitrary parameters, injected error/unknown/wrong-success responses at generated positions, arbitrary EDID blobs and sizes, on all transports and device policies. The 9P mount tag is also read while the device changes its configuration before every single access and every pair of accesses of the constructor. Reference devices decode every chain against independently written specification structures (command code, every parameter at its offset, zero padding), enforce ordering (create->attach->set_scanout, transfer->flush, set_params before transfer), compare returned values with what the device reported (EDID via an independent decoder, compared as multiset plus non-increasing order), check PCM payload concatenation/chunk size/stream tag/outstanding bound, and the ledger reports a DMA region released while still attached as backing. Non-trivial = history with a resolution change after a framebuffer exists, >=3 PCM transfers outstanding, or an error response mid-sequence (GPU/sound); >=2 requests incl. an error (rtc/9p/rng). distinct = (transport, features, op kinds/outcomes).",
             assumptions: vec![
                 "sequence and lifetime oracles apply while no device error has occurred in the history (as the property states); after one, only 'non-success response => Err' is checked".into(),
                 "stream ids passed to pcm_set_params/pcm_xfer are valid (out-of-range ids index a Vec and panic, which C20 does not constrain); prepare/start/stop/release also get invalid ids".into(),
